@@ -27,7 +27,7 @@ from . import c14_units as SI
 PROP = "C14"
 LEAN_MODULE = "NixModel.Props.C14"
 THEOREMS = ["Nix.C14." + t for t in """
-C14_sound C14_silent_wellformed C14_sound_iff C14_objects C14_reports C14_validate C14_complete_NoType C14_complete_NoName C14_complete_NoDate
+C14_sound C14_silent_wellformed C14_sound_iff C14_objects C14_entry_at C14_reports C14_validate C14_complete_NoType C14_complete_NoName C14_complete_NoDate
 C14_complete_NoID_check C14_entity_part C14_dim_message C14_complete_DimensionMismatch
 C14_complete_RangeDimTicksMismatch C14_complete_SetDimLabelsMismatch C14_complete_NoTicks C14_complete_UnsortedTicks
 C14_complete_InvalidDimensionUnit C14_complete_NoSamplingInterval C14_complete_InvalidSamplingInterval
@@ -38,7 +38,8 @@ C14_complete_PositionsExtentsMismatch C14_complete_PositionsDimensionMismatch C1
 C14_complete_mtag_units C14_missing_positions_reported C14_unit_pair_atoms C14_unconvertible_atoms
 C14_complete_property C14_catalogue_distinct C14_catalogue_complete
 C14_complete_NoID_counterexample C14_complete_NoID_partial C14_emits_entity C14_emits_dims
-C14_emits_feature_property C14_emits_tags C14_emits_array C14_traversal_order
+C14_emits_feature_property C14_emits_tags C14_emits_array C14_traversal_order C14_shape_tag C14_shape_multi_tag
+C14_shape_array C14_shape_entities C14_shape_no_other_sites C14_shape_helpers
 """.split()]
 ASSUMPTIONS = [
     "the validator reads the file only through the public API; the model works on a description of what those reads "
@@ -62,9 +63,12 @@ ASSUMPTIONS = [
     "products of units against each other are not decided by the property text (either verdict is accepted)",
 ]
 TRUSTED_EXTRA = ["harness/extract/validator.py renders the ValidationError catalogue (identifiers, texts, arities), the "
-                 "identifiers each check function refers to, and the container order of check_file",
+                 "identifiers each check function refers to with the conditions they sit under, the statements of the "
+                 "verdict helpers, and the container order of check_file; harness/extract/units.py the SI tables and "
+                 "regex shapes",
                  "harness/props/c14.py: file builder (h5py edits), API walk -> description, message parser, and the "
-                 "recipe-level expectation with its hand-labelled unit table"]
+                 "recipe-level expectation; harness/props/c14_units.py: the oracle's own SI prefix / unit tables and "
+                 "reader of unit strings"]
 READY = True
 
 
@@ -1304,7 +1308,7 @@ def gen_multiobj(rng, scope, odd=False):
 
 
 def gen_cases(ctx, scope, n_plain, n_bases, singles_per_base, pairs_per_base, exhaustive_bases=0,
-              exhaustive_pairs=60, n_multiref=0, n_multi=0, n_sweep=0, sweep_size=24):
+              exhaustive_pairs=60, n_multiref=0, n_multi=0, n_sweep=0, sweep_size=24, each_kind=True):
     """[(label, recipe, [injections])]"""
     rng = ctx.rng
     odd = scope == "all"
@@ -1323,7 +1327,7 @@ def gen_cases(ctx, scope, n_plain, n_bases, singles_per_base, pairs_per_base, ex
         cases.append(("wellformed", gen_recipe(rng, small=False, odd=odd), []))
     # every injection kind at least once per run, on a fresh small base each
     seen = set()
-    tries = 0
+    tries = 0 if each_kind else 40
     while tries < 40:
         tries += 1
         base = gen_recipe(rng, small=True, odd=odd, want=rng.choice([0, 2, 3]))
@@ -1565,7 +1569,7 @@ def oracle(ctx, broken, hints):
         cases += gen_cases(ctx, "property", ctx.budget(6, 30), ctx.budget(6, 20), ctx.budget(8, 25),
                            ctx.budget(8, 30), exhaustive_bases=ctx.budget(0, 1), exhaustive_pairs=300,
                            n_multiref=ctx.budget(24, 150), n_multi=ctx.budget(12, 80),
-                           n_sweep=ctx.budget(3, 20), sweep_size=ctx.budget(24, 40))
+                           n_sweep=ctx.budget(3, 20), sweep_size=ctx.budget(24, 40), each_kind=not ctx.quick())
     failures = []
     seen = set()
     kinds = {}
@@ -1640,19 +1644,28 @@ def replay_failure(ctx, fj):
 
 MANIFEST = {
     "level_text": "Kernel-checked theorems over a Lean model of validator.py (check functions branch for branch, the "
-                  "check_file traversal incl. the recursive source/section walks, and the API reads that raise): "
-                  "a well-formed file validates to no errors for every file (C14_sound); the traversal reports exactly "
-                  "the objects of the file whose message list is non-empty (C14_objects, C14_reports); for each "
-                  "catalogue entry the message is in an object's list iff the object has that inconsistency, with "
-                  "per-dimension/feature/property messages tied to the position they name (C14_complete_*); the "
-                  "catalogue texts regenerated from the source are pairwise distinct. The model is tied to the code by "
-                  "exact differential runs on real HDF5 files (generated well-formed files + single and pairwise "
-                  "injections), and an independent recipe-level oracle states the property on the implementation.",
+                  "check_file traversal incl. the recursive source/section walks, the API reads that raise; unit tests "
+                  "through the C09 model of units.py instantiated with the regenerated SI tables): a file validates to "
+                  "no errors iff it is well-formed (C14_sound, C14_silent_wellformed, C14_sound_iff: WellFormed is "
+                  "exactly the conjunction the validator's silence forces); the traversal reports exactly the objects "
+                  "of the file whose message list is non-empty, under the key that names their position (C14_objects, "
+                  "C14_entry_at, C14_reports); for each catalogue entry the message is in an object's list iff the "
+                  "object has that inconsistency, per-dimension/feature/property messages tied to the position they "
+                  "name (C14_complete_*); on units written from the SI tables 'convertible' is same symbol and power, "
+                  "and one inconvertible descriptor of any one reference suffices (C14_unit_pair_atoms, "
+                  "C14_unconvertible_atoms); the catalogue texts are pairwise distinct. Tie: catalogue, emitted "
+                  "identifiers, guard structure of every check function and the statements of the verdict helpers are "
+                  "regenerated from the AST and compared by named theorems (C14_emits_*, C14_shape_*); exact "
+                  "differential runs on real HDF5 files (well-formed files, single / pairwise / subset injections, "
+                  "multi-reference cases, unit sweeps over the complete SI tables); an independent recipe-level oracle "
+                  "with its own SI unit reader states the property on the implementation.",
     "level_note": "Partial: the API reads are abstracted to a description produced by the same walk on both sides; "
                   "'no ID set' cannot be reported (the API refuses an entity without UUID id, validate() raises): full "
                   "statement refuted (C14_complete_NoID_counterexample), partial theorem under the UUID hypothesis, "
-                  "open known findings for the two raising classes (missing id, missing positions link). Trusted: Lean "
-                  "kernel; axioms propext/Classical.choice/Quot.sound; the catalogue translator; the harness builder/"
-                  "walker/parser; units.is_si/is_atomic/scalable are the C09 model.",
+                  "open known finding (missing id). Repaired in /repo: missing date (d015b28), position/extent mismatch "
+                  "without references (961745b), missing positions link (b01e565). C14_unit_pair_atoms covers powers "
+                  "^-3..^3 (the C09 atom table). Trusted: Lean kernel; axioms propext/Classical.choice/Quot.sound; the "
+                  "catalogue and units translators; the harness builder/walker/parser and the oracle's SI table "
+                  "(harness/props/c14_units.py).",
     "technique": "Lean 4 proof over a model of validator.py + differential correspondence on real HDF5 files",
 }
